@@ -94,11 +94,22 @@ def run():
                 else:
                     ab.vanish(op['pk'])
                 ops.append(op)
+            # always: a replaceable (or parameterized) event and the newer / same-time version that displaces it - the
+            # call whose interruption may lose the old version without the new one having arrived
+            rk = rng.choice([10003, 0, 30023])
+            rpk = rng.choice(AUTHORS)
+            rtags = [[b'd', rng.choice([b'', b'x'])]] if rk == 30023 else []
+            v1 = g.new_event(kind=rk, pk=rpk, t=100, tags=rtags, content=b'v1')
+            v2 = g.new_event(kind=rk, pk=rpk, t=rng.choice([100, 200]), tags=rtags, content=b'v2' * rng.choice([1, 400]))
+            for ev in (v1, v2):
+                ab.store(ev)
+                ops.append({'op': 'store', 'ev': ev})
             if not ops:
                 continue
             # choose the steps to interrupt
             if Q:
                 special = [i for i, o in enumerate(ops) if o['op'] in ('vanish', 'remove') or (o['op'] == 'store' and o['ev']['kind'] == 5)][:2]
+                special.append(len(ops) - 1)
                 ks = sorted(set(special + rng.sample(range(len(ops)), min(2, len(ops)))))
             else:
                 ks = list(range(len(ops)))
